@@ -521,8 +521,12 @@ Varable failures: {var_failed}
         # If subsetting replaces ('ROW', 'COL') ... for example with ('PERIM',)
         # remove the dimensions
         if deleterowcol:
-            del outf.dimensions['COL']
-            del outf.dimensions['ROW']
+            # unless a variable with only one of them (y(ROW), x(COL) of the
+            # CF coordinates) still has the dimension
+            for dk in ('COL', 'ROW'):
+                if not any(dk in getattr(v, 'dimensions', ())
+                           for v in outf.variables.values()):
+                    del outf.dimensions[dk]
         else:
             # Update origins
             if 'COL' in kwds and 'COL' in outf.dimensions:
